@@ -112,6 +112,7 @@ type RawPeer struct {
 	ws     *websocket.Conn
 	tr     lime.Transport
 	TLS    bool
+	WSS    bool
 	closed *Flag // the remote side ended the connection (EOF, reset, error)
 	nFrame int
 	newFrm chan struct{}
@@ -158,7 +159,7 @@ func DialRawWS(w *World, h *History, idx int, url string, tlsCfg *tls.Config) (*
 	if err != nil {
 		return nil, err
 	}
-	p := &RawPeer{w: w, h: h, Idx: idx, Kind: "ws", ws: ws, closed: NewFlag(), newFrm: make(chan struct{}, 64), Link: link}
+	p := &RawPeer{w: w, h: h, Idx: idx, Kind: "ws", ws: ws, closed: NewFlag(), newFrm: make(chan struct{}, 64), Link: link, WSS: strings.HasPrefix(url, "wss:")}
 	p.startReader()
 	return p, nil
 }
@@ -180,7 +181,11 @@ func (p *RawPeer) note(kind string, frame map[string]interface{}, raw, note stri
 
 func (p *RawPeer) gotFrame(kind string, m map[string]interface{}, raw string) {
 	p.nFrame++
-	p.note(kind, m, raw, "")
+	enc := "cleartext"
+	if p.TLS || p.WSS {
+		enc = "tls"
+	}
+	p.note(kind, m, raw, enc)
 	select {
 	case p.newFrm <- struct{}{}:
 	default:
